@@ -361,8 +361,8 @@ Hypothesis P_ff : forall g pos n, P g pos -> P (g <| g_ff := n |>) pos.
 Hypothesis P_idle_pc : forall g pos p, P g pos -> g_c g = CIdle -> (p = CChk \/ p = CShSet) -> P (g <| g_c := p |>) pos.
 Hypothesis P_cstep : forall m g pos, P g pos -> P (fst (cstep c m g)) pos.
 Hypothesis P_rstep : forall m g pos, P g pos -> P (fst (rstep c m g pos)) (snd (rstep c m g pos)).
-Hypothesis P_wstep : forall i m g pos, P g pos -> wstep c i m g = g.
-Hypothesis P_sstep : forall m g pos, P g pos -> sstep c m g = g.
+Hypothesis P_wstep : forall i m g pos, P g pos -> P (wstep c i m g) pos.
+Hypothesis P_sstep : forall m g pos, P g pos -> P (sstep c m g) pos.
 
 Definition Pcur (s : state) : Prop := forall g, cur s = Some g -> P g (s_pos s).
 
@@ -449,10 +449,10 @@ Proof.
     rewrite (upd_nth_same _ _ _ En). apply (pcur_frame s); auto.
   - intros g' E. cbn.
     apply (cur_upd (fun g => P g (s_pos s)) (wstep c i m) gi s); [| exact E | exact H].
-    intros x Hx. rewrite (P_wstep i m x _ Hx). exact Hx.
+    intros x Hx. apply P_wstep, Hx.
   - intros g' E. cbn.
     apply (cur_upd (fun g => P g (s_pos s)) (sstep c m) gi s); [| exact E | exact H].
-    intros x Hx. rewrite (P_sstep m x _ Hx). exact Hx.
+    intros x Hx. apply P_sstep, Hx.
 Qed.
 
 (* P holds of the current generation in every reachable state of every schedule without a reader-join timeout *)
@@ -496,7 +496,9 @@ Theorem prefetcher_tracks_consumer script sched :
   g_snap g + g_steps g = g_base g + g_recv g /\ g_snap g <= g_base g + g_recv g.
 Proof.
   intros Hj g Eg.
-  pose proof (p_reachable c PFinv (pf_new c Hpf) pf_ff pf_idle_pc (pf_cstep c Hpf) (pf_rstep c) wstep_pf sstep_pf script sched Hj g Eg) as HP.
+  pose proof (p_reachable c PFinv (pf_new c Hpf) pf_ff pf_idle_pc (pf_cstep c Hpf) (pf_rstep c)
+                (fun i m g pos H => eq_ind_r (fun x => PFinv x pos) H (wstep_pf i m g pos H))
+                (fun m g pos H => eq_ind_r (fun x => PFinv x pos) H (sstep_pf m g pos H)) script sched Hj g Eg) as HP.
   pose proof (p_main _ _ HP) as HM. split; [exact HM | lia].
 Qed.
 
@@ -607,8 +609,8 @@ Proof.
     intros x i Hx. destruct Hp as [->| ->]; discriminate.
   - intros m g pos [H1 H2]. split; [apply pf_cstep; auto | eapply pf2_cstep; eauto].
   - intros m g pos [H1 H2]. split; [apply pf_rstep; auto | eapply pf2_rstep; eauto].
-  - intros i m g pos [H1 _]. eapply wstep_pf; eauto.
-  - intros m g pos [H1 _]. eapply sstep_pf; eauto.
+  - intros i m g pos [H1 H2]. rewrite (wstep_pf c i m g pos H1). split; assumption.
+  - intros m g pos [H1 H2]. rewrite (sstep_pf c m g pos H1). split; assumption.
 Qed.
 
 (* C04 (Prefetcher is the identity) + C06 together: along every schedule without a reader-join timeout, in every reachable
